@@ -464,5 +464,42 @@ pub fn all() -> Vec<Scenario> {
         symptom_oracles: vec!["value", "value_at_confirmed_tick"],
     });
 
+    // Malformed bytes of one client ahead of another client's valid message on the same channel, in the
+    // same server frame (regression of the seeded change C06-b): the valid message is still handled.
+    let mut p = prof();
+    p.clients = 2;
+    v.push(Scenario {
+        id: "byz_event_same_frame",
+        props: vec!["C06", "C05"],
+        trace: Trace {
+            profile: p.clone(),
+            steps: cat(vec![
+                vec![Step::ServerStart, Step::Connect { client: 0 }, Step::Connect { client: 1 }],
+                vec![sf(true), cf(0), cf(1)],
+                vec![Step::ClientEmit { client: 1, ev: CEv::Ord, target: None }, cf(1)],
+                vec![Step::Inject { client: 0, channel: Chans { proto: false }.cev(CEv::Ord) as u8, bytes: vec![] }],
+                vec![up(1, Chan::CEv(CEv::Ord)), sf(true), sf(true)],
+                vec![Step::Heal],
+            ]),
+        },
+        symptom_oracles: vec![],
+    });
+    p.app.auth = 0;
+    v.push(Scenario {
+        id: "byz_hash_same_frame",
+        props: vec!["C06", "C07"],
+        trace: Trace {
+            profile: p,
+            steps: cat(vec![
+                vec![Step::ServerStart, Step::Connect { client: 0 }, Step::Connect { client: 1 }],
+                vec![cf(1)],
+                vec![Step::Inject { client: 0, channel: 1, bytes: vec![] }],
+                vec![up(1, Chan::ProtoHash), sf(true), sf(true), sf(true)],
+                vec![Step::Heal],
+            ]),
+        },
+        symptom_oracles: vec![],
+    });
+
     v
 }
